@@ -131,7 +131,7 @@ class SPHFirstOrderApproximation(Equation):
     def initialize(self, d_idx, d_prop, d_p_sph):
         i = declare('int')
 
-        for i in range(3):
+        for i in range(4):
             d_prop[4*d_idx+i] = 0.0
             d_p_sph[4*d_idx+i] = 0.0
 
